@@ -159,6 +159,15 @@ def check_doc(name, d, eqpt_file=None, load=True):
         l3 = yang_to_legacy(rt(legacy_to_yang(rt(l))))
         if canon(l3) != canon(l):
             prob.append('a second legacy -> YANG -> legacy round changes the document: ' + '; '.join(list(cmp(l, l3))[:3]))
+        if knd == 'topology':
+            # the same YANG document with the element types written as prefixed identities (the form libyang prints and
+            # the shipped API example uses) means the same thing
+            yp = rt(y)
+            for e in yp['gnpy-network-topology:topology']['elements']:
+                e['type'] = 'gnpy-network-topology:' + e['type']
+            lp = yang_to_legacy(yp)
+            if canon(lp) != canon(l):
+                prob.append('YANG form with module-prefixed element types converts to another legacy document: ' + '; '.join(list(cmp(l, lp))[:3]))
         dn = deepcopy(d)
         for e in dn.get('elements', []):
             # the two legacy spellings of a per-frequency loss coefficient (both accepted by the loader) are one value
